@@ -73,6 +73,11 @@ fn main() {
     let mut sample_budget = 6usize;
     let mut found_sigs: Vec<String> = Vec::new();
     for hidx in 0..n {
+        // the verdict is settled long before: do not burn the budget on a tree that is broken
+        if report.stats.c.get("violating_histories").copied().unwrap_or(0) >= 50 {
+            report.notes.push(format!("stopped after {} histories: 50 of them violated the property", hidx));
+            break;
+        }
         let mut rng = master.fork();
         let cfg = gen_config(&mut rng, profile);
         let nops = rng.range(max_ops / 2, max_ops) as usize;
